@@ -23,33 +23,33 @@ variable {M K R : Type}
 
 /-- `Collection.Add(id, m, opts...)` is `Update` on the record computed from `opts` with the two flags
 set — wherever the two options sit: prepended (what the code does) or appended. -/
-theorem C01_add_options (cfg : Cfg M K R) (s : CState M R) (id : String) (msg : M) (opts : List (WOpt M K)) :
-    Coll.addO cfg s id msg opts = Coll.add cfg s id msg (computeWriteConfig cfg.ops opts) ∧
-    Coll.addO cfg s id msg opts = Coll.updateO cfg s id msg (opts ++ [.expectAbsent, .createIfAbsent]) := by
+theorem C01_add_options (cat : K → K → K) (cfg : Cfg M K R) (s : CState M R) (id : String) (msg : M) (opts : List (WOpt M K)) :
+    Coll.addO cat cfg s id msg opts = Coll.add cfg s id msg (computeWriteConfig cfg.ops cat opts) ∧
+    Coll.addO cat cfg s id msg opts = Coll.updateO cat cfg s id msg (opts ++ [.expectAbsent, .createIfAbsent]) := by
   unfold Coll.addO Coll.updateO Coll.add
   rw [computeWriteConfig_add_front, computeWriteConfig_add_back]
   exact ⟨rfl, rfl⟩
 
 /-- Flags are only ever set: whatever options follow, expect-absent, create-if-absent, generate-id and
 all-fields-writable stay in force once given. -/
-theorem C01_option_flags_sticky (ops : MsgOps M K) (pre post : List (WOpt M K)) :
-    ((computeWriteConfig ops pre).expectAbsent = true → (computeWriteConfig ops (pre ++ post)).expectAbsent = true) ∧
-    ((computeWriteConfig ops pre).createIfAbsent = true → (computeWriteConfig ops (pre ++ post)).createIfAbsent = true) ∧
-    ((computeWriteConfig ops pre).genEmptyID = true → (computeWriteConfig ops (pre ++ post)).genEmptyID = true) ∧
-    ((computeWriteConfig ops pre).nilWritable = true → (computeWriteConfig ops (pre ++ post)).nilWritable = true) := by
+theorem C01_option_flags_sticky (ops : MsgOps M K) (cat : K → K → K) (pre post : List (WOpt M K)) :
+    ((computeWriteConfig ops cat pre).expectAbsent = true → (computeWriteConfig ops cat (pre ++ post)).expectAbsent = true) ∧
+    ((computeWriteConfig ops cat pre).createIfAbsent = true → (computeWriteConfig ops cat (pre ++ post)).createIfAbsent = true) ∧
+    ((computeWriteConfig ops cat pre).genEmptyID = true → (computeWriteConfig ops cat (pre ++ post)).genEmptyID = true) ∧
+    ((computeWriteConfig ops cat pre).nilWritable = true → (computeWriteConfig ops cat (pre ++ post)).nilWritable = true) := by
   unfold computeWriteConfig
   rw [List.foldl_append]
-  exact foldl_flags_mono ops post _
+  exact foldl_flags_mono ops cat post _
 
 /-- The update mask of a list: the LAST `WithUpdateMask(m)` decides (whatever came before it), and
-every `WithMoreUpdateMask(k)` after it unites `k` in — unless `m` is nil, which stays nil ("everything").
+every `WithMoreUpdateMask(k)` after it adds the paths of `k`, as given (`cat`), — unless `m` is nil, which stays nil ("everything").
 With no `WithUpdateMask` at all the mask is nil, whatever `WithMoreUpdateMask` options there are. -/
-theorem C01_update_mask_options (ops : MsgOps M K) (pre post : List (WOpt M K)) (m : Option K)
+theorem C01_update_mask_options (ops : MsgOps M K) (cat : K → K → K) (pre post : List (WOpt M K)) (m : Option K)
     (hpost : ∀ o ∈ post, o.setsUpdateMask = false) :
-    (computeWriteConfig ops (pre ++ .updateMask m :: post)).updateMask = moreMasks ops post m ∧
-    (computeWriteConfig ops post).updateMask = none ∧
-    moreMasks ops post none = none := by
-  have hnone : moreMasks ops post none = none := by
+    (computeWriteConfig ops cat (pre ++ .updateMask m :: post)).updateMask = moreMasks cat post m ∧
+    (computeWriteConfig ops cat post).updateMask = none ∧
+    moreMasks cat post none = none := by
+  have hnone : moreMasks cat post none = none := by
     unfold moreMasks
     generalize post = l
     induction l with
@@ -57,10 +57,10 @@ theorem C01_update_mask_options (ops : MsgOps M K) (pre post : List (WOpt M K)) 
     | cons o l ih => simp only [List.foldl_cons]; cases o <;> exact ih
   refine ⟨?_, ?_, hnone⟩
   · unfold computeWriteConfig
-    rw [List.foldl_append, List.foldl_cons, foldl_updateMask ops post hpost]
+    rw [List.foldl_append, List.foldl_cons, foldl_updateMask ops cat post hpost]
     rfl
   · unfold computeWriteConfig
-    rw [foldl_updateMask ops post hpost]
+    rw [foldl_updateMask ops cat post hpost]
     exact hnone
 
 /-- Read options are last-wins, independently for the mask and the include predicate. -/
@@ -94,11 +94,11 @@ theorem C01_nil_read_mask_reads_all (cfg : Cfg M K R) (s : CState M R) (v : VSta
 with option lists): ids strictly increasing; an entry is listed iff the LAST include predicate (if any)
 accepts the id and the STORED message (not its masked projection), and what is listed is the projection
 of the stored message by the LAST read mask. -/
-theorem C01_list_options (cfg : Cfg M K R) (h : EqRefl cfg.ops) (records : List (String × M)) (rng : R)
+theorem C01_list_options (cat : K → K → K) (cfg : Cfg M K R) (h : EqRefl cfg.ops) (records : List (String × M)) (rng : R)
     (ops : List (COpO M K))
     (pre post : List (ROpt M K)) (m : Option K) (f : Option (String → M → Bool))
     (hm : ∀ o ∈ post, o.setsReadMask = false) (hf : ∀ o ∈ post, o.setsInclude = false) :
-    let s := (Coll.runO cfg (Coll.init cfg records rng) ops).2
+    let s := (Coll.runO cat cfg (Coll.init cfg records rng) ops).2
     ((Coll.listIdsO cfg s (pre ++ .readMask m :: .incl f :: post)).map (·.1)).Pairwise (· < ·) ∧
     ∀ id v, (id, v) ∈ Coll.listIdsO cfg s (pre ++ .readMask m :: .incl f :: post) ↔
       ∃ it, lookup s.items id = some it ∧ (∀ p, f = some p → p id it.body = true) ∧ v = cfg.ops.filter m it.body := by
@@ -110,7 +110,7 @@ theorem C01_list_options (cfg : Cfg M K R) (h : EqRefl cfg.ops) (records : List 
       induction ops with
       | nil => intro s0 h0; exact h0
       | cons op ops ih => intro s0 h0; simp only [Coll.run]; exact ih _ (step_nodup cfg h s0 op h0)
-    show NodupKeys (Coll.runO cfg (Coll.init cfg records rng) ops).2.items
+    show NodupKeys (Coll.runO cat cfg (Coll.init cfg records rng) ops).2.items
     rw [runO_eq]
     exact this _ _ (nodupKeys_init cfg records rng)
   have h1 : (computeReadConfig (pre ++ .readMask m :: .incl f :: post)).readMask = m :=
@@ -143,17 +143,17 @@ theorem C01_list_options (cfg : Cfg M K R) (h : EqRefl cfg.ops) (records : List 
 
 /-- Collection ⊑ map, on option lists: from any initial records every sequence of calls, each with
 its own option list, is a run of the reference map on the computed records. -/
-theorem C01_collection_refines_opts (cfg : Cfg M K R) (h : EqRefl cfg.ops) (records : List (String × M)) (rng : R)
+theorem C01_collection_refines_opts (cat : K → K → K) (cfg : Cfg M K R) (h : EqRefl cfg.ops) (records : List (String × M)) (rng : R)
     (ops : List (COpO M K)) :
-    Spec.Run cfg (abs (Coll.init cfg records rng)) (ops.map (compileOp cfg.ops))
-      (Coll.runO cfg (Coll.init cfg records rng) ops).1
-      (abs (Coll.runO cfg (Coll.init cfg records rng) ops).2) := by
+    Spec.Run cfg (abs (Coll.init cfg records rng)) (ops.map (compileOp cfg.ops cat))
+      (Coll.runO cat cfg (Coll.init cfg records rng) ops).1
+      (abs (Coll.runO cat cfg (Coll.init cfg records rng) ops).2) := by
   rw [runO_eq]
   exact run_refines cfg h _ _ (nodupKeys_init cfg records rng)
 
 /-- Value ⊑ register, on option lists. -/
-theorem C01_value_refines_opts (cfg : Cfg M K R) (h : EqRefl cfg.ops) (ops : List (VOpO M K)) (s : VState M) :
-    Value.runO cfg s ops = Spec.vrun cfg s (ops.map (compileVOp cfg.ops)) := by
+theorem C01_value_refines_opts (cat : K → K → K) (cfg : Cfg M K R) (h : EqRefl cfg.ops) (ops : List (VOpO M K)) (s : VState M) :
+    Value.runO cat cfg s ops = Spec.vrun cfg s (ops.map (compileVOp cfg.ops cat)) := by
   rw [vrunO_eq, value_set_run cfg h]
 where
   value_set_run (cfg : Cfg M K R) (h : EqRefl cfg.ops) : ∀ (ops : List (VOp M K)) (s : VState M),
@@ -171,11 +171,11 @@ where
 the list lifts the resource's restriction whatever else is given; otherwise the writable fields are the
 resource's united with the masks of ALL `WithMoreWritableFields` options (none of them is lost, wherever
 they stand); a resource without a restriction has none.  No other option has a say. -/
-theorem C01_writable_options (cfg : Cfg M K R) (opts : List (WOpt M K)) :
-    (fieldUpdater cfg (computeWriteConfig cfg.ops opts)).writable =
+theorem C01_writable_options (cat : K → K → K) (cfg : Cfg M K R) (opts : List (WOpt M K)) :
+    (fieldUpdater cfg (computeWriteConfig cfg.ops cat opts)).writable =
       if opts.any WOpt.isAllWritable then none
       else cfg.writable.map (fun w => cfg.ops.union w (moreWritableOf cfg.ops opts none)) := by
-  have hf := foldl_writable cfg.ops opts ({} : WriteReq M K)
+  have hf := foldl_writable cfg.ops cat opts ({} : WriteReq M K)
   unfold fieldUpdater computeWriteConfig
   simp only [hf.1, hf.2, Bool.false_or]
   cases opts.any WOpt.isAllWritable with
@@ -428,10 +428,10 @@ masks; `WithMoreUpdateMask` before the mask it would extend is lost, after it it
 example :
     (computeReadConfig ([.readMask (some [Field.a]), .readMask none] : List (ROpt Msg Mask))).readMask = none ∧
     (computeReadConfig ([.readMask none, .readMask (some [Field.a])] : List (ROpt Msg Mask))).readMask = some [Field.a] ∧
-    (computeWriteConfig flatOps ([.moreUpdateMask [.s], .updateMask (some [.a])] : List (WOpt Msg Mask))).updateMask = some [.a] ∧
-    (computeWriteConfig flatOps ([.updateMask (some [.a]), .moreUpdateMask [.s]] : List (WOpt Msg Mask))).updateMask = some [.a, .s] ∧
-    (computeWriteConfig flatOps ([.moreUpdateMask [.s]] : List (WOpt Msg Mask))).updateMask = none ∧
-    (computeWriteConfig flatOps ([.allowMissing true, .allowMissing false] : List (WOpt Msg Mask))).allowMissing = false := by
+    (computeWriteConfig flatOps (· ++ ·) ([.moreUpdateMask [.s], .updateMask (some [.a])] : List (WOpt Msg Mask))).updateMask = some [.a] ∧
+    (computeWriteConfig flatOps (· ++ ·) ([.updateMask (some [.a]), .moreUpdateMask [.s]] : List (WOpt Msg Mask))).updateMask = some [.a, .s] ∧
+    (computeWriteConfig flatOps (· ++ ·) ([.moreUpdateMask [.s]] : List (WOpt Msg Mask))).updateMask = none ∧
+    (computeWriteConfig flatOps (· ++ ·) ([.allowMissing true, .allowMissing false] : List (WOpt Msg Mask))).allowMissing = false := by
   decide
 
 def oCfg : Cfg Msg Mask (List Nat) := { ops := flatOps, gen := flatGen, icpt := some lowerStr }
@@ -450,7 +450,7 @@ def oShow : CRes Msg → Option (Option Msg) × Option Code × List String
   | .wrote o => (some o.val, o.err, o.events.map (·.id))
   | .listed _ => (none, none, [])
 
-example : (Coll.runO oCfg (Coll.init oCfg [] []) oScript).1.map oShow =
+example : (Coll.runO (· ++ ·) oCfg (Coll.init oCfg [] []) oScript).1.map oShow =
     [ (some (some { a := 1, s := "", c := none }), none, ["a"]),
       (some (some { a := 2, s := "y", c := none }), none, ["a"]),
       (some (some { a := 2, s := "y", c := none }), none, []),
